@@ -234,7 +234,9 @@ func (req *SrvReq) process() {
 	req.Unlock()
 
 	if flushed {
+		/* cancelled before it started: it must not be executed */
 		req.Respond()
+		return
 	}
 
 	if rop, ok := (req.Conn.Srv.ops).(SrvReqProcessOps); ok {
